@@ -8,6 +8,7 @@ import itertools
 import os
 import random
 import sys
+from contextlib import contextmanager
 
 sys.path.insert(0, os.path.dirname(os.path.dirname(os.path.abspath(__file__))))
 
@@ -31,6 +32,29 @@ GRID = {
     "phpass": dict(vals=[7, 8, 9, 10], below=[2, 5], above=[31, 64], cap=11),
 }
 VARY = [0, 1, 2, 10, 100, 0.1, 0.25, 0.5, 1.0, "10%", "50%", "0.1", "3"]
+
+
+class G(Group):
+    """Group that remembers the case being evaluated (for the witness of an unexpected exception)"""
+
+    last_case = None
+
+    def case(self, ident, nontrivial=True):
+        self.last_case = ident
+        Group.case(self, ident, nontrivial)
+
+
+@contextmanager
+def guarded(g, section):
+    """an exception escaping a call that the property says must succeed is a failure of that case, not a harness crash"""
+    try:
+        yield
+    except Exception as err:  # noqa: BLE001
+        import traceback
+
+        tb = traceback.extract_tb(err.__traceback__)
+        where = [f"{os.path.basename(fr.filename)}:{fr.lineno}" for fr in tb[-4:]]
+        g.fail(f"crash:{section}:{type(err).__name__}", f"call raised unexpectedly: {err}"[:200], {"section": section, "trace": where, "case": repr(g.last_case)[:600]})
 
 
 def load_facts():
@@ -334,7 +358,7 @@ def build(tier, rng):
     from passlib.context import CryptContext
 
     # ---- probe sanity: the oracle's cost parser agrees with the cost that was asked for ----------
-    g = Group("probe-hashes", "ctx_policy.hash_cost / claims", "every pool scheme x cheap costs: oracle parses back the requested cost, only the maker (and catch-alls) claim the hash")
+    g = G("probe-hashes", "ctx_policy.hash_cost / claims", "every pool scheme x cheap costs: oracle parses back the requested cost, only the maker (and catch-alls) claim the hash")
     for s in POOL:
         for c in (GRID[s]["vals"] if s in GRID else [None]):
             h = probes.make(s, c)
@@ -353,21 +377,22 @@ def build(tier, rng):
         plan = [p for k in range(1, 5) for p in itertools.permutations(POOL, k)]
         plan = plan * 8
         desc = f"every ordered subset of <=4 of the {len(POOL)} pool schemes (5860) x 8 option draws"
-    g = Group(
+    g = G(
         "generated-configurations",
         "CryptContext.identify/hash/needs_update/verify_and_update vs ctx_policy",
         desc + " x default x deprecated (list, string, auto, per category) x min/max/default/rounds/vary_rounds (ints, strings, floats, percent, clipped by hard limits, 'all' scheme) x categories None/admin/staff(+unconfigured) x hashes at window edges -1/0/+1 x right/wrong password x verify_and_update to a fixed point",
     )
     stats = {"valid": 0, "invalid": 0}
     for sch in plan:
-        cfg, status = gen_config(rng, facts, schemes=sch)
-        stats["valid" if status == "valid" else "invalid"] += 1
-        g.case(repr(P.to_kwds(cfg)))
-        check_config(g, cfg, status, facts, probes, rng, n_verify=3)
+        with guarded(g, "generated-configurations"):
+            cfg, status = gen_config(rng, facts, schemes=sch)
+            stats["valid" if status == "valid" else "invalid"] += 1
+            g.case(repr(P.to_kwds(cfg)))
+            check_config(g, cfg, status, facts, probes, rng, n_verify=3)
     groups.append(g)
 
     # ---- hand-picked interactions ---------------------------------------------------------------
-    g = Group("directed-configurations", "_CryptConfig option inheritance / default + deprecated resolution", "hand-picked interactions: auto + category default, category list over global auto, empty category list, 'all' vs scheme precedence, rounds alias overridden per category, clipping on both sides")
+    g = G("directed-configurations", "_CryptConfig option inheritance / default + deprecated resolution", "hand-picked interactions: auto + category default, category list over global auto, empty category list, 'all' vs scheme precedence, rounds alias overridden per category, clipping on both sides")
     directed = [
         {"schemes": ["sha256_crypt", "md5_crypt", "des_crypt"], "deprecated": "auto", "options": {"sha256_crypt": {"rounds": 1000}}, "categories": {"admin": {"default": "md5_crypt"}}},
         {"schemes": ["md5_crypt", "sha1_crypt", "des_crypt"], "deprecated": ["auto"], "options": {"sha1_crypt": {"max_rounds": 5}}, "categories": {"admin": {"deprecated": ["md5_crypt"]}, "staff": {"deprecated": []}}},
@@ -380,18 +405,19 @@ def build(tier, rng):
         {"schemes": ["plaintext", "des_crypt", "sha256_crypt"], "default": "sha256_crypt", "options": {"sha256_crypt": {"rounds": 1000}}, "categories": {}},
     ]
     for cfg in directed:
-        cfg.setdefault("categories", {})
-        st = classify(cfg, facts)
-        g.case(repr(P.to_kwds(cfg)))
-        if st == "valid":
-            for _ in range(4):
-                check_config(g, cfg, st, facts, probes, rng, n_verify=6)
-        else:
-            g.fail("harness:directed-not-valid", f"directed configuration classified {st}", P.to_kwds(cfg))
+        with guarded(g, "directed-configurations"):
+            cfg.setdefault("categories", {})
+            st = classify(cfg, facts)
+            g.case(repr(P.to_kwds(cfg)))
+            if st == "valid":
+                for _ in range(4):
+                    check_config(g, cfg, st, facts, probes, rng, n_verify=6)
+            else:
+                g.fail("harness:directed-not-valid", f"directed configuration classified {st}", P.to_kwds(cfg))
     groups.append(g)
 
     # ---- known witness class: bsdi_crypt forces odd rounds past an even upper limit ------------
-    g = Group("bsdi-odd-rounds", "bsdi_crypt._generate_rounds", "bsdi_crypt with an even configured upper limit equal to the default (max_rounds / rounds alias / per category): a new hash stays inside the window and needs no update")
+    g = G("bsdi-odd-rounds", "bsdi_crypt._generate_rounds", "bsdi_crypt with an even configured upper limit equal to the default (max_rounds / rounds alias / per category): a new hash stays inside the window and needs no update")
     KEY = "bsdi_crypt:odd-rounds-above-max"
     for kw in [
         dict(bsdi_crypt__max_rounds=5000, bsdi_crypt__default_rounds=5000),
@@ -411,7 +437,7 @@ def build(tier, rng):
     groups.append(g)
 
     # ---- found: vary_rounds range is not clipped to the hard limits ------------------------------
-    g = Group("vary-rounds-hard-limits", "HasRounds._calc_vary_rounds_range", "default near the hard minimum + vary_rounds without min_rounds, library rng pinned to the lowest / highest draw: hash() succeeds with a cost inside the hard limits")
+    g = G("vary-rounds-hard-limits", "HasRounds._calc_vary_rounds_range", "default near the hard minimum + vary_rounds without min_rounds, library rng pinned to the lowest / highest draw: hash() succeeds with a cost inside the hard limits")
     import passlib.utils.handlers as uh
 
     class EdgeRng(random.Random):
@@ -447,7 +473,7 @@ def build(tier, rng):
 
     # ---- libpass.context.CryptContext ------------------------------------------------------------
     skipped = []
-    g = Group("libpass-context", "libpass.context.CryptContext", "every ordered selection of 1..3 distinct hasher objects out of 7 (two SHA256Hasher objects with different rounds among them) x a hash from every hasher + junk: hash with schemes[0], verify = any, needs_update iff not schemes[0]'s format; empty list refused; same object twice")
+    g = G("libpass-context", "libpass.context.CryptContext", "every ordered selection of 1..3 distinct hasher objects out of 7 (two SHA256Hasher objects with different rounds among them) x a hash from every hasher + junk: hash with schemes[0], verify = any, needs_update iff not schemes[0]'s format; empty list refused; same object twice")
     import re
 
     from libpass.context import CryptContext as LC
